@@ -39,6 +39,8 @@ func main() {
 		util.Die("usage: numfix sema|fx|cv|rangetable|rangetrace|script ...")
 	}
 	switch os.Args[1] {
+	case "sema":
+		cmdSema(os.Args[2])
 	case "rangetable":
 		cmdRangeTable(os.Args[2], os.Args[3])
 	case "rangetrace":
